@@ -9,6 +9,10 @@
 (*  frame    the returned rows (by state name), requested size, columns,   *)
 (*           evidence, likelihood weights                                  *)
 (*  freq     per kernel: how often each state was drawn under it           *)
+(*           (method "simulate": BayesianNetwork.simulate with do / evidence *)
+(*           / virtual evidence = sampling from the mutilated network and  *)
+(*           rejection: rows agree with do and evidence, intervened values *)
+(*           are clamped, everything else has positive probability)        *)
 (*  repro    two runs with the same seed returned identical frames         *)
 (*  gibbs    one Gibbs transition kernel entry                             *)
 (* Spec: the ancestral-sampling machine draws node n of a row from exactly *)
@@ -58,7 +62,7 @@ Check(e) ==
          IF Len(e.rows) # e.size THEN Fail("frame.row_count")
          ELSE IF cols # (IF e.include_latents THEN N ELSE N \ Lat) THEN Fail("frame.columns")
          ELSE IF \E r \in ToSet(e.rows) : \E v \in cols : r[v] \notin ToSet(b.states[v]) THEN Fail("frame.invalid_state_name")
-         ELSE IF \E r \in ToSet(e.rows) : ~RowOK(r, cols, IF e.method = "lw" THEN DOMAIN e.evid ELSE {}) THEN Fail("frame.zero_probability_state")
+         ELSE IF \E r \in ToSet(e.rows) : ~RowOK(r, cols, IF e.method = "lw" THEN DOMAIN e.evid ELSE ToSet(e.clamped)) THEN Fail("frame.zero_probability_state")
          ELSE IF \E r \in ToSet(e.rows) : ~Agree(r, e.evid) THEN Fail("frame.disagrees_with_evidence")
          ELSE IF e.method = "lw" /\ \E i \in 1..Len(e.rows) : <<e.weights[i][1], e.weights[i][2]>> # LWeight(e.rows[i], e.evid)
               THEN Fail("frame.likelihood_weight")
